@@ -110,7 +110,13 @@ def impl_relations(res, rng, n_mat, n_pts):
             bad('delta_stress(delta_strain(d)) != d', E=E, K=K, n=n, delta_stress=ds.tolist(), returned=dback.tolist())
         # lower hysteresis meets the curve at the reversal point
         sm = float(abs(s[-1]) + 1.0)
-        if not close(ro.lower_hysteresis(sm, sm), ro.strain(sm), 1e-14):
+        try:
+            meets = close(ro.lower_hysteresis(sm, sm), ro.strain(sm), 1e-14) and \
+                close(ro.lower_hysteresis(np.array([-sm, 0.5 * sm, sm]), sm)[-1], ro.strain(sm), 1e-14)
+        except Exception as ex:
+            meets = False
+            bad('lower_hysteresis raises at the reversal point (stress == max_stress)', E=E, K=K, n=n, max_stress=sm, error=repr(ex))
+        if not meets:
             bad('lower_hysteresis(max, max) != strain(max)', E=E, K=K, n=n, max_stress=sm)
         # scalar vs array
         for i in (0, len(s) // 2, len(s) - 1):
